@@ -415,7 +415,7 @@ pub proof fn lemma_first_err_step(q: Seq<Job>, i: int, n: int)
 }
 
 // ---- offset rebasing closures (R10): `section.offset = current_offset; current_offset += section.size` ----
-fn rebase_write_mid(current_offset: &mut u64, section: Section) -> (r: Section)
+fn rebase_write_mid(current_offset: &mut u64, section: Section, pre_data: u64) -> (r: Section)
     requires
         
         *old(current_offset) + section.size <= u64::MAX,
@@ -426,12 +426,75 @@ fn rebase_write_mid(current_offset: &mut u64, section: Section) -> (r: Section)
         *final(current_offset) == *old(current_offset) + section.size,
         
         r.chrom == section.chrom && r.start == section.start && r.end == section.end && r.size == section.size,
-{ let mut section = section; // TODO: this assumes that all the data is contiguous
+{
+    let mut section = section;
+
+        // TODO: this assumes that all the data is contiguous
         // This will fail if we ever space the sections in any way
         section.offset = (*current_offset);
         (*current_offset) = (*current_offset) + (section.size);
         section
     }
+
+fn rebase_write_zooms(current_offset: &mut u64, section: Section, zoom_data_offset: u64) -> (r: Section)
+    requires
+        
+        *old(current_offset) + section.size <= u64::MAX,
+    ensures
+        
+        r.offset == *old(current_offset),
+        
+        *final(current_offset) == *old(current_offset) + section.size,
+        
+        r.chrom == section.chrom && r.start == section.start && r.end == section.end && r.size == section.size,
+{
+    let mut section = section;
+
+            // TODO: assumes contiguous, see note for primary data
+            section.offset = (*current_offset);
+            (*current_offset) = (*current_offset) + (section.size);
+            section
+        }
+
+fn rebase_zoom_vals_first(current_offset: &mut u64, section: Section, first_zoom_data_offset: u64) -> (r: Section)
+    requires
+        
+        *old(current_offset) + section.size <= u64::MAX,
+    ensures
+        
+        r.offset == *old(current_offset),
+        
+        *final(current_offset) == *old(current_offset) + section.size,
+        
+        r.chrom == section.chrom && r.start == section.start && r.end == section.end && r.size == section.size,
+{
+    let mut section = section;
+
+        // TODO: assumes contiguous, see note for primary data
+        section.offset = (*current_offset);
+        (*current_offset) = (*current_offset) + (section.size);
+        section
+    }
+
+fn rebase_zoom_vals_later(current_offset: &mut u64, section: Section, zoom_data_offset: u64) -> (r: Section)
+    requires
+        
+        *old(current_offset) + section.size <= u64::MAX,
+    ensures
+        
+        r.offset == *old(current_offset),
+        
+        *final(current_offset) == *old(current_offset) + section.size,
+        
+        r.chrom == section.chrom && r.start == section.start && r.end == section.end && r.size == section.size,
+{
+    let mut section = section;
+
+            // TODO: assumes contiguous, see note for primary data
+            section.offset = (*current_offset);
+            (*current_offset) = (*current_offset) + (section.size);
+            section
+        }
 
 } // verus!
 fn main() {}
